@@ -216,7 +216,7 @@ func VfC07_getRIB_q() {
 }
 
 func VfC07_getRIB_t() {
-	vfGetRun(vfPreCfg{nNH: 2, nNHG: 1, nTop: 2, nHeld: 1, members: 2, topKinds: vfTopAll}, true, false)
+	vfGetRun(vfPreCfg{nNH: 2, nNHG: 1, nTop: 1, nHeld: 1, members: 2, topKinds: vfTopQ}, false, true)
 }
 
 // getRIB_p: every next-hop carries one of the 13 extended payload shapes (valid content), IPv4/IPv6 entries a
